@@ -212,6 +212,7 @@ def focused(tier):
                 out.append(single("slotted %s off=%s cap=%s %s" % (sizes, off, cap, opt), fam, K=K, T=8.5, arr=[0.5, 0.0], srv=[2.0, 0.5, 4.0],
                                   c={"slotted": {"slots": slots, "sizes": sizes, "capacitated": cap, "preempt": opt, "offset": off}},
                                   features=["slotted"]))
+    out += noserver_upstream_block(tier, ps=False, preempt=False, only=["slotted"])   # pre-emptive slots + blocking: outside the quantifier
     return out
 
 
